@@ -43,7 +43,11 @@ LEVEL_NOTE = ('theorems are about the Gallina model Model/PrimEq.v (+ Model/Impl
               'non-zero condensate is a registered known finding (fixed runner cloud_nonzero); oracles also hand the profile '
               'over as int64/int32/strided/read-only arrays and re-use one equation object across profile changes '
               '(re-bound field, in-place overwrite, dataclasses.replace); a float32 profile in x64 mode is NOT covered: '
-              'on the pinned tree it already differs from the float64 profile by ~4e-8 relative')
+              'on the pinned tree it already differs from the float64 profile by ~4e-8 relative; '
+              'vertical_advection=upwind_vertical_advection is outside the claim for non-uniform profiles (the implicit H always '
+              'advects T_ref with the centred scheme; measured 0.3 relative on the pinned tree), oracles use it with '
+              'level-uniform profiles only; grids on which the exactness obligations fail (equiangular latitudes, '
+              'longitude_nodes = 2(M-1)) are outside the claim (measured split dependence 4e-3 / 9e-2); device meshes are not exercised')
 TECHNIQUE = 'proof+differential-correspondence+metamorphic-oracle'
 
 CLOUD_CLAUSE = 'cloud-moist class: total tendency independent of T_ref with non-zero cloud condensate'
@@ -84,15 +88,32 @@ def specs_of(name='default'):
 
 
 GRIDS = {'g5': dict(longitude_wavenumbers=4, total_wavenumbers=5, longitude_nodes=12, latitude_nodes=6),
-         'g7': dict(longitude_wavenumbers=6, total_wavenumbers=7, longitude_nodes=18, latitude_nodes=9)}
+         'g7': dict(longitude_wavenumbers=6, total_wavenumbers=7, longitude_nodes=18, latitude_nodes=9),
+         # non-default grid options: Fast implementations (padded modal layout), radius / longitude offset,
+         # wide and tall grids, total_wavenumbers > longitude_wavenumbers + 1, the smallest alias-free longitude count
+         'g5fast': dict(longitude_wavenumbers=4, total_wavenumbers=5, longitude_nodes=12, latitude_nodes=6, impl='fast'),
+         'g5zi': dict(longitude_wavenumbers=4, total_wavenumbers=5, longitude_nodes=12, latitude_nodes=6, impl='zeroimag'),
+         'g5r': dict(longitude_wavenumbers=4, total_wavenumbers=5, longitude_nodes=12, latitude_nodes=6, radius=2.5,
+                     longitude_offset=0.3),
+         'wide': dict(longitude_wavenumbers=3, total_wavenumbers=4, longitude_nodes=64, latitude_nodes=5),
+         'tall': dict(longitude_wavenumbers=3, total_wavenumbers=4, longitude_nodes=10, latitude_nodes=48),
+         'g47': dict(longitude_wavenumbers=4, total_wavenumbers=7, longitude_nodes=12, latitude_nodes=9),
+         'g5l8': dict(longitude_wavenumbers=4, total_wavenumbers=5, longitude_nodes=8, latitude_nodes=6)}
 
 
 def grid_of(name):
     j = J()
     if name not in j['grids']:
-        g = j['sh'].Grid(**GRIDS[name])
+        kw = dict(GRIDS[name]); impl = kw.pop('impl', None)
+        if impl:
+            kw['spherical_harmonics_impl'] = {'fast': j['sh'].FastSphericalHarmonics,
+                                              'zeroimag': j['sh'].RealSphericalHarmonicsWithZeroImag}[impl]
+        g = j['sh'].Grid(**kw)
         j['grids'][name] = g
-        j['ones'][name] = np.asarray(g.to_modal(np.ones(g.nodal_shape)))
+        # modal coefficients of the constant field one, independent of the implementation: 2 sqrt(pi) at (m,l)=(0,0)
+        # (checked against grid.to_modal(ones) as a table obligation)
+        one = np.zeros(g.modal_shape); one[0, 0] = 2.0 * np.sqrt(np.pi)
+        j['ones'][name] = one
     return j['grids'][name]
 
 
@@ -124,12 +145,14 @@ def present_profile(T, how='float64'):
     return t
 
 
-def make_eq(cls, Tref, oro, coords, va=True, method=None, how='float64', phys='default'):
+def make_eq(cls, Tref, oro, coords, va=True, method=None, how='float64', phys='default', vadv='centered'):
     j = J(); pe = j['pe']
     C = {'dry': pe.PrimitiveEquations, 'time': pe.PrimitiveEquationsWithTime, 'moist': pe.MoistPrimitiveEquations,
          'cloud': pe.MoistPrimitiveEquationsWithCloudMoisture}[cls]
+    kw = {}
+    if vadv == 'upwind': kw['vertical_advection'] = j['sc'].upwind_vertical_advection
     return C(present_profile(Tref, how), oro, coords, specs_of(phys), vertical_matmul_method=method,
-             include_vertical_advection=bool(va))
+             include_vertical_advection=bool(va), **kw)
 
 
 def make_state(cls, vort, div, Tp, lnps, tracers):
@@ -144,15 +167,31 @@ def base_fields(a, grid, K):
     L = grid.total_wavenumbers
     lmax = min(int(a.get('lmax', L - 2)), L - 2)
     amp = float(a.get('amp', 1.0))
-    f = dict(vort=rand_modal(rng, grid, (K,), lmax, True, amp), div=rand_modal(rng, grid, (K,), lmax, True, amp),
-             Tdev=rand_modal(rng, grid, (K,), lmax, False, 30.0 * amp), lnps=rand_modal(rng, grid, (1,), lmax, False, 0.1 * amp),
+    kind = a.get('state', 'random')
+    def fld(lead, zero_mean, scale):
+        x = rand_modal(rng, grid, lead, lmax, zero_mean, scale)
+        if kind == 'top_mode':      # one non-zero coefficient, at the highest retained total wavenumber
+            m_idx = np.nonzero(grid.mask[:, lmax])[0]
+            y = np.zeros_like(x); mi = int(m_idx[int(rng.integers(len(m_idx)))])
+            y[..., mi, lmax] = scale * (1.0 + np.arange(int(np.prod(lead)) if lead else 1).reshape(lead))
+            return y
+        if kind == 'int': return np.round(4 * x / max(scale, 1e-300)) * scale / 4
+        return x
+    f = dict(vort=fld((K,), True, amp), div=fld((K,), True, amp), Tdev=fld((K,), False, 30.0 * amp),
+             lnps=fld((1,), False, 0.1 * amp),
              oro=rand_modal(rng, grid, (), lmax, False, 0.01) if a.get('oro') else np.zeros(grid.modal_shape))
+    if kind == 'rest':              # atmosphere at rest, horizontally uniform temperature and surface pressure
+        for n in ('vort', 'div', 'Tdev'): f[n] = np.zeros_like(f[n])
+        c0 = np.zeros_like(f['lnps']); c0[..., 0, 0] = f['lnps'][..., 0, 0]; f['lnps'] = c0
     tr = {}
     for n in tracer_names(a['cls'], int(a.get('ntr', 0))):
         s = 0.01 if n in (QN, QC, QI) else 1.0
         if n in (QC, QI) and not a.get('cloud', 0.0): s = 0.0
         elif n in (QC, QI): s = float(a['cloud'])
-        tr[n] = rand_modal(rng, grid, (K,), lmax, False, s)
+        tr[n] = fld((K,), False, s)
+        if n == QN and kind == 'zero_q': tr[n] = np.zeros_like(tr[n])
+        if n.startswith('tracer_') and a.get('batch'):      # leading batch axis, different content per slice
+            tr[n] = np.stack([tr[n], 2.0 * tr[n][::-1] + 0.25 * rand_modal(rng, grid, (K,), lmax, False, 1.0)])
     f['tracers'] = tr
     return f
 
@@ -248,6 +287,40 @@ def generate(ctx):
         yield 'object_reuse', {'cls': cls, 'grid': 'g5', 'K': K, 'b': levels(K, r), 'TA': profile(K, r % 2 == 1), 'TB': profile(K),
                                'phys': PHYS[(r + 2) % 4],
                                'oro': r % 2, 'ntr': r % 2, 'seed': int(rng.integers(1 << 30)), 'lmax': 9, 'amp': 1.0}
+    # ---- self-review additions: options, grids, structured states, extremes, batch axes, jit ----
+    def ocase(cls, K, **kw):
+        d = {'cls': cls, 'grid': 'g5', 'K': K, 'b': levels(K, K), 'T1': profile(K), 'T2': profile(K), 'oro': 1, 'ntr': 0, 'va': 1,
+             'seed': int(rng.integers(1 << 30)), 'lmax': 9, 'amp': 1.0}
+        d.update(kw); return d
+    extra = [ocase('dry', 3, method='sparse'), ocase('moist', 4, method='sparse', phys='moist_alt'), ocase('cloud', 2, method='dense'),
+             ocase('moist', 3, grid='g5fast'), ocase('dry', 3, grid='g5r', phys='small_planet'), ocase('dry', 2, grid='wide'),
+             ocase('dry', 3, state='rest'), ocase('moist', 3, state='top_mode'), ocase('moist', 2, state='zero_q'),
+             ocase('time', 3, state='int'), ocase('dry', 3, amp=1e3), ocase('moist', 2, amp=1e-3),
+             ocase('dry', 3, ntr=1, batch=1), ocase('moist', 2, ntr=2, batch=1, grid='g5fast')]
+    if not quick:
+        extra += [ocase(c, K, grid=g, method=m) for c in ('dry', 'time', 'moist', 'cloud') for (K, g, m) in
+                  ((3, 'g5zi', None), (4, 'tall', 'sparse'), (2, 'g47', None), (5, 'g5l8', 'sparse'), (3, 'g5fast', 'sparse'), (1, 'g5r', None))]
+        extra += [ocase(c, K, state=st, amp=am) for c in ('dry', 'moist', 'cloud') for K in (1, 4)
+                  for (st, am) in (('rest', 1.0), ('top_mode', 1e3), ('zero_q', 1.0), ('int', 1e-3))]
+        extra += [ocase(c, 3, ntr=2, batch=1) for c in ('time', 'cloud')]
+    for d in extra:
+        ctx.count('oracle:extra ' + ' '.join('%s=%s' % (k, d[k]) for k in ('grid', 'method', 'state', 'batch') if k in d and d[k] not in (None, 'g5')))
+        yield 'oracle', d
+    # non-default vertical advection scheme: the implicit half always uses the centred scheme, so invariance is claimed
+    # (and holds) only between level-uniform profiles
+    for cls, K in ([('dry', 3)] if quick else [('dry', 3), ('moist', 4), ('time', 2)]):
+        t1 = profile(K, True)
+        yield 'oracle', ocase(cls, K, vadv='upwind', T1=t1, T2=[t1[0] - 11.25] * K)
+    # correspondence on the non-default grids (nodal columns and implicit (m,l) columns)
+    for r, (cls, K, g) in enumerate([('moist', 3, 'g5fast'), ('dry', 2, 'g5r')] if quick else
+                                    [(c, K, g) for c in ('dry', 'moist', 'cloud') for (K, g) in ((3, 'g5fast'), (2, 'g5r'), (2, 'wide'), (3, 'g47'), (2, 'g5zi'))]):
+        yield 'corr', {'cls': cls, 'grid': g, 'K': K, 'b': levels(K, r), 'Tref': profile(K), 'phys': PHYS[r % 4], 'oro': 1, 'ntr': 1,
+                       'va': 1, 'seed': int(rng.integers(1 << 30)), 'nodes': 4, 'sparse': r % 2}
+    for g in (['g5fast'] if quick else ['g5fast', 'g5zi', 'g5r', 'wide', 'tall', 'g47', 'g5l8']):
+        yield 'obligations', {'grid': g, 'seed': int(rng.integers(1 << 30))}
+    for cls, K in ([('dry', 2)] if quick else [('dry', 2), ('moist', 3), ('cloud', 2)]):
+        yield 'jit_order', {'cls': cls, 'grid': 'g5', 'K': K, 'b': levels(K, 0), 'T1': profile(K), 'T2': profile(K), 'oro': 1,
+                            'ntr': 1 if cls == 'dry' else 0, 'seed': int(rng.integers(1 << 30)), 'lmax': 9, 'amp': 1.0}
     yield 'cloud_nonzero', dict(CLOUD_ARGS)
 
 
@@ -446,7 +519,7 @@ def totals(a, cloud=None):
     res = []
     for T, how in ((a['T1'], a.get('how1', 'float64')), (a['T2'], a.get('how2', 'float64'))):
         Tref = np.asarray(T, dtype=np.float64)
-        eq = make_eq(cls, Tref, f['oro'], coords, a.get('va', 1), None, how, a.get('phys', 'default'))
+        eq = make_eq(cls, Tref, f['oro'], coords, a.get('va', 1), a.get('method'), how, a.get('phys', 'default'), a.get('vadv', 'centered'))
         Tp = f['Tdev'] + (250.0 - Tref)[:, None, None] * j['ones'][a.get('grid', 'g5')]
         st = make_state(cls, f['vort'], f['div'], Tp, f['lnps'], f['tracers'])
         e = eq.explicit_terms(st).asdict(); i = eq.implicit_terms(st).asdict()
@@ -471,6 +544,20 @@ def r_oracle(ctx, a):
         name = 'tracers' if k.startswith('tracers/') else k
         ctx.oracle_close('%s: explicit+implicit %s tendency is the same for two reference profiles' % (a['cls'], name),
                          e1[k] + i1[k], e2[k] + i2[k], scale=sc_)
+    if a.get('batch'):
+        # a tracer with a leading batch axis evolves slice by slice like the same tracer given alone
+        grid0, coords0 = coords_of(a); K = coords0.vertical.layers
+        for k in [k for k in e1 if k.startswith('tracers/tracer_')]:
+            n = k.split('/')[1]
+            for sl in range(f['tracers'][n].shape[0]):
+                tr = dict(f['tracers']); tr[n] = f['tracers'][n][sl]
+                Tref = np.asarray(a['T1'], dtype=np.float64)
+                eq = make_eq(a['cls'], Tref, f['oro'], coords0, a.get('va', 1), a.get('method'), 'float64', a.get('phys', 'default'))
+                Tp = f['Tdev'] + (250.0 - Tref)[:, None, None] * J()['ones'][a.get('grid', 'g5')]
+                st = make_state(a['cls'], f['vort'], f['div'], Tp, f['lnps'], tr)
+                es = flat(eq.explicit_terms(st).asdict())[k]
+                ctx.oracle_close('tracer with a leading batch axis: each slice has the tendency of that tracer alone',
+                                 e1[k][sl], es, scale=max(A(e1[k]), 1e-30))
     # the state is admissible and the test is not vacuous
     ctx.oracle('reference profiles differ (test not vacuous)', a['T1'] != a['T2'], None)
 
@@ -545,6 +632,14 @@ def r_obligations(ctx, a):
         worst['H_leibniz'] = max(worst['H_leibniz'], A(clip(grid.div_cos_lat((mu, mv), clip=False)) - clip(rhs)) / s2)
         rhsc = grid.to_modal(sec2 * (gq[0] * gn[1] - gq[1] * gn[0]))
         worst['H_leibniz_curl'] = max(worst['H_leibniz_curl'], A(clip(grid.curl_cos_lat((mu, mv), clip=False)) - clip(rhsc)) / s2)
+    # tables recomputed independently of the implementation
+    one = np.asarray(grid.to_modal(np.ones(grid.nodal_shape)))
+    ctx.table_obligation('to_modal(1) = 2 sqrt(pi) at (0,0), zero elsewhere, on grid %s' % a['grid'],
+                         A(one - j['ones'][a['grid']]) <= tol * 64 * 4, {'error': A(one - j['ones'][a['grid']])})
+    mu, _w = np.polynomial.legendre.leggauss(grid.latitude_nodes)
+    s2 = 1.0 / (1.0 - np.sort(mu) ** 2)
+    ctx.table_obligation('sec2_lat = 1/(1-mu^2) at the Gauss nodes, on grid %s' % a['grid'],
+                         A(np.sort(sec2.ravel()) - np.sort(s2)) <= tol * A(s2), {'error': A(np.sort(sec2.ravel()) - np.sort(s2))})
     for k, w in worst.items():
         ctx.table_obligation('%s on grid %s (clipped fields, l <= L-2)' % (k, a['grid']), w <= tol * 64, {'relative_error': w})
 
@@ -575,6 +670,11 @@ def r_object_reuse(ctx, a):
     eq = make_eq(cls, TA, f['oro'], coords, phys=a.get('phys', 'default')); ev(eq, TA)
     eq.reference_temperature = present_profile(TB); ev(eq, TB)
     eq.reference_temperature = present_profile(TA); variants_back = ev(eq, TA)
+    # purity: the same object evaluated again after other objects were used gives bit-identical results
+    eqp = make_eq(cls, TA, f['oro'], coords, phys=a.get('phys', 'default')); p1 = ev(eqp, TA)
+    ev(make_eq(cls, TB, f['oro'], coords, phys=a.get('phys', 'default')), TB); p2 = ev(eqp, TA)
+    same = all(np.array_equal(p1[h][k], p2[h][k]) for h in (0, 1) for k in p1[h])
+    ctx.oracle('object reuse: repeated evaluation interleaved with another object is bit-identical', same, None)
     for name, (e, i) in variants.items():
         for k in e:
             sc_ = max(A(fresh[0][k]), A(fresh[1][k]), 1e-30)
@@ -591,5 +691,33 @@ def r_object_reuse(ctx, a):
     ctx.oracle('reference profiles differ (test not vacuous)', a['TA'] != a['TB'], None)
 
 
-RUNNERS = {'object_reuse': r_object_reuse, 'corr': r_corr, 't_omega': r_t_omega, 'oracle': r_oracle, 'cloud_nonzero': r_cloud_nonzero,
+def r_jit_order(ctx, a):
+    """Two equation objects differing only in the reference profile, traced with jax.jit in the same process in the
+    order 1, 2, 1: jitted explicit+implicit equals the eager evaluation, the third call is bit-identical to the
+    first, and the split invariance holds between the jitted totals."""
+    jax = util.setup_jax()
+    j = J()
+    grid, coords = coords_of(a)
+    K = coords.vertical.layers; cls = a['cls']
+    f = base_fields(a, grid, K)
+    outs = []; eager = []
+    for T in (a['T1'], a['T2'], a['T1']):
+        Tref = np.asarray(T, dtype=np.float64)
+        eq = make_eq(cls, Tref, f['oro'], coords, phys=a.get('phys', 'default'))
+        Tp = f['Tdev'] + (250.0 - Tref)[:, None, None] * j['ones'][a.get('grid', 'g5')]
+        st = make_state(cls, f['vort'], f['div'], Tp, f['lnps'], f['tracers'])
+        fn = jax.jit(lambda s_, eq=eq: eq.explicit_terms(s_) + eq.implicit_terms(s_))
+        outs.append(flat(fn(st).asdict()))
+        e = flat(eq.explicit_terms(st).asdict()); i = flat(eq.implicit_terms(st).asdict())
+        eager.append(({k: e[k] + i[k] for k in e}, {k: max(A(e[k]), A(i[k]), 1e-30) for k in e}))
+    for k in outs[0]:
+        fld = 'tracers' if k.startswith('tracers/') else k
+        sc_ = max(eager[0][1][k], eager[1][1][k])
+        for n in range(3):
+            ctx.oracle_close('jit: jitted explicit+implicit %s tendency equals the eager evaluation' % fld, outs[n][k], eager[n][0][k], scale=sc_)
+        ctx.oracle('jit: evaluation order 1,2,1 - third call bit-identical to the first (%s)' % fld, np.array_equal(outs[0][k], outs[2][k]), None)
+        ctx.oracle_close('jit: explicit+implicit %s tendency is the same for two reference profiles' % fld, outs[0][k], outs[1][k], scale=sc_)
+
+
+RUNNERS = {'jit_order': r_jit_order, 'object_reuse': r_object_reuse, 'corr': r_corr, 't_omega': r_t_omega, 'oracle': r_oracle, 'cloud_nonzero': r_cloud_nonzero,
            'obligations': r_obligations}
